@@ -18,7 +18,9 @@ CONSTANTS Family,  \* "unit" | "slip" | "mean" | "none" | "chain" | "seq" | "tup
           BS,      \* block size 1..3 (tuple/nest: block size of the blocked component)
           Depth,   \* chains / sequences of 1..Depth parts (sequences also 0)
           Pal,     \* value palette 1 | 2
-          LCs      \* the life-cycle operations (subset of Filters!LifeCycleOps) the filter object goes through before it is applied
+          LCs      \* the life-cycle operations (Filters!LifeCycleOps) the filter object goes through before it is applied,
+                   \* plus the capability tokens (Filters!AllCaps): which of the conditionally instantiable calls exist on
+                   \* the tree under verification (found by the check by try-compiling each of them)
 
 VARIABLES ph,      \* "init" | "live" | "once" | "twice"
           F0, lc,  \* the filter as built and the life-cycle operation that produces the filter F that is applied
@@ -70,7 +72,7 @@ Init ==
        /\ F = f /\ F0 = f /\ op = o /\ n = SizesOf(f, nb)
        /\ den = DivOf(f) * DivOf(f)
        /\ v0 = InputOf(f, nb, DivOf(f) * DivOf(f))
-  /\ lc \in {l \in LCs : Offered(F0, l)}
+  /\ lc \in {l \in LCs \cap LifeCycleOps : OfferedWith(F0, l, LCs \cap AllCaps)}
   /\ r1 = [v |-> <<>>, ex |-> TRUE, mx |-> 0] /\ r2 = [v |-> <<>>, ex |-> TRUE, mx |-> 0]
 
 \* the filter object that is applied is obtained from the built one by clone / convert / move (or is the built one)
@@ -82,7 +84,7 @@ Next == Live \/ FilterOnce \/ FilterTwice
 Spec == Init /\ [][Next]_vars
 
 \* ---- the property, decided on the denotation ------------------------------------------------------------
-FilterOK == WellFormed(F, n)
+FilterOK == WellFormed(F, n) /\ LCs \subseteq (LifeCycleOps \cup AllCaps)
 \* the law of the life-cycle operations: same value, same denotation (for every operation, not only the one called)
 LifeCycleLaw == /\ ph # "init" => F = F0
                 /\ ph = "live" /\ lc # "none" => \A o \in Ops : Apply(F, o, den, v0).v = Apply(F0, o, den, v0).v
